@@ -13,4 +13,9 @@ theorem temp_generated_decisions_sub : decisionsMatchRule .difference = true := 
 /-- the comparison block decides alike on the regenerated and on the exact table -/
 theorem temp_generated_decisions_cmp : decisionsMatchRule .comparison = true := by decide +kernel
 
+/-- `math.isclose` in `Unit.__eq__` decides exactly equality on every pair of units of the
+    regenerated universe (values as the code holds them), so treating it as equality in the theorems
+    loses nothing here -/
+theorem temp_isclose_is_equality : iscloseIsEquality = true := by decide +kernel
+
 end Unyt.C08
